@@ -71,8 +71,11 @@ def main():
                 env = dict(os.environ, CFDPMON_REPO=str(d), CFDPMON_EVIDENCE_DIR=str(ev), CFDPMON_REPLAY_DIR=str(d / "replays"), CFDPMON_WORK_DIR=str(d / "work"))
                 r = subprocess.run(["/venv/bin/python", str(VERIF / "check.py"), prop, "--tier", tier], env=env, text=True, capture_output=True)
                 first = next((l for l in r.stdout.splitlines() if l.startswith("violation:")), "")
-                row["checks"][prop] = {"rc": r.returncode, "first": first[:300]}
-                if r.returncode not in (0, 1):
+                code = r.returncode
+                if code == 1 and f"VIOLATION property={prop}" not in r.stdout:
+                    code = 3  # the check itself crashed: never counted as caught
+                row["checks"][prop] = {"rc": code, "first": first[:300]}
+                if code not in (0, 1):
                     row["checks"][prop]["out"] = (r.stdout + r.stderr)[-600:]
             results.append(row)
             status = " ".join(f"{p}:{'CAUGHT' if c['rc'] == 1 else ('missed' if c['rc'] == 0 else 'rc=%d' % c['rc'])}" for p, c in row["checks"].items())
